@@ -3,7 +3,11 @@
 Templates: `vtexe` followed by k tokens; the i-th token is one of the 18 concrete token kinds of `vt.ref.template.POOL`
 (the 13 documented forms, `<n:T>` spelled out for T in int/float/str/file/directory, plus the quoted default
 `--dflt <n='x'>`) with the i-th field name and a flag derived from it (all names and flags of a template distinct).
-    short   every sequence of 1..3 (quick) / 1..4 (thorough) tokens over the 18-token pool
+    short   every sequence of 1..3 tokens over the 18-token pool (both tiers)
+    short4  (thorough) every sequence of 4 tokens over the 14 documented forms; the typed form `<n:T>` takes its T by
+            rotation ((position + sum of form indices) mod 5: every type occurs ~550 times at every position).  The
+            full 18^4 space was run once while building (116 270 templates, 0 violations, 60 CPU-minutes) and is
+            above the thorough budget
     long    every sequence of 4..6 (quick) / 5..6 (thorough) tokens over the 4-token pool {<n:str>, -x <n:int>,
             --flagx<n>, <out|n$tn.txt>}
 For every template: `shell.define(template)`; the fields of the generated class are read through the public
@@ -167,12 +171,21 @@ def spread(violations):
     return [v for *_, v in sorted(keyed, key=lambda t: t[:3])]
 
 
+TYPED = [i for i, t in enumerate(RT.POOL) if t in ("<{n}:int>", "<{n}:float>", "<{n}:str>", "<{n}:file>", "<{n}:directory>")]
+FORMS = [i for i in range(len(RT.POOL)) if i not in TYPED[1:]]     # one entry per documented form (14)
+
+
 def items(thorough):
-    n_short = 4 if thorough else 3
+    """short: every sequence of 1..3 tokens over the 18 concrete tokens; thorough adds every sequence of 4 *forms*
+    (the typed form `<n:T>` takes T by rotation: (position + sum of the form indices) mod 5, so that all types occur at
+    all positions over the space); long: 4..6 | 5..6 tokens over the 4-token pool"""
     out = []
-    for k in range(1, n_short + 1):
+    for k in range(1, 4):
         out += [("short", list(t)) for t in itertools.product(range(len(RT.POOL)), repeat=k)]
-    for k in range(n_short + 1, 7):
+    if thorough:
+        for t in itertools.product(FORMS, repeat=4):
+            out.append(("short4", [TYPED[(i + sum(t)) % len(TYPED)] if f == TYPED[0] else f for i, f in enumerate(t)]))
+    for k in range(5 if thorough else 4, 7):
         out += [("long", list(t)) for t in itertools.product(RT.POOL4, repeat=k)]
     return out
 
@@ -181,10 +194,12 @@ def run(ctx):
     from vt.par import pmap
     its = items(ctx.thorough)
     n_short = 4 if ctx.thorough else 3
-    ctx.rule = ("every template of 1..%d tokens over the %d-token pool and of %d..6 tokens over the 4-token pool; fields "
-                "of the generated class (get_fields) == reference reader; argv at the execute seam for the assignments "
-                "'all' and 'min' == executable + token contributions in template order; non-trivial = >= 2 tokens; "
-                "distinct by template" % (n_short, len(RT.POOL), n_short + 1))
+    ctx.rule = ("every template of 1..3 tokens over the %d concrete tokens%s and of %d..6 tokens over the 4-token pool; "
+                "fields of the generated class (get_fields) == reference reader; argv at the execute seam for the "
+                "assignments 'all' and 'min' == executable + token contributions in template order; non-trivial = >= 2 "
+                "tokens; distinct by template"
+                % (len(RT.POOL), ", every 4-token sequence over the 14 documented forms (type of <n:T> by rotation)"
+                   if ctx.thorough else "", n_short + 1))
     ctx.assumptions += [
         "types compared as written: no type -> FsObject (str after a spaced flag, bool for a glued flag); a default of an "
         "output argument, positions, help strings and separators are not compared (the statement is silent)",
@@ -195,7 +210,7 @@ def run(ctx):
         "errors raised after the command was executed (output collection) are counted, not judged",
     ]
     ctx.coverage["bounds"] = dict(pool=RT.POOL, pool4=[RT.POOL[i] for i in RT.POOL4], short_max=n_short, long_max=6,
-                                  templates=len(its))
+                                  templates={t: sum(1 for k, _ in its if k == t) for t in ("short", "short4", "long")})
     pmap(ctx, work, its, chunk=max(1, min(150, len(its) // (ctx.nproc * 8) or 1)))
     ctx.violations[:] = spread(ctx.violations)
 
